@@ -5,6 +5,7 @@
 //!     (+ Duration, - Duration, - Self, duration_since, duration_since_unix_time, comparisons) and
 //!     prints one ndjson line per call: operands and result as DECIMAL STRINGS (the check converts
 //!     them to base-10^4 limbs; the judgement is TLC's), panics caught per call.
+//! timearith one <a_s> <a_ns> <b_s> <b_ns> <d_s> <d_ns>     the calls of one case (replay)
 //! timearith clock <threads> <readings>
 //!     monotonic readings per thread (lane = thread), readings taken while holding a baton
 //!     (lane 0: a total happens-before order across threads), and sleeps of 0 / 1us / 1ms / 20ms
@@ -365,6 +366,14 @@ fn main() {
     let a: Vec<String> = std::env::args().collect();
     match a.get(1).map(String::as_str) {
         Some("arith") => arith(a[2].parse().unwrap(), a[3].parse().unwrap(), a.get(4).map(String::as_str) == Some("full")),
+        Some("one") => {
+            // one <a_s> <a_ns> <b_s> <b_ns> <d_s> <d_ns>: every call of arith_case on these operands
+            selfcheck();
+            let mut out = Out::new();
+            let p = |i: usize| a[i].parse::<i64>().unwrap();
+            arith_case(&mut out, (p(2), p(3)), (p(4), p(5)), Duration::new(a[6].parse().unwrap(), a[7].parse().unwrap()));
+            out.flush();
+        }
         Some("clock") => clock(a[2].parse().unwrap(), a[3].parse().unwrap()),
         _ => {
             eprintln!("usage: timearith arith <n> <seed> | clock <threads> <readings>");
